@@ -33,7 +33,10 @@ type primaryGC struct {
 	reclaimed   int64
 }
 
-type UpdateIndexFunc func([]byte, types.Block) error
+// UpdateIndexFunc re-points the index entry of a key from the old location of
+// a relocated record to its new location. It must fail, and leave the index
+// unchanged, if the index does not map the key to the old location.
+type UpdateIndexFunc func(indexKey []byte, oldBlk, newBlk types.Block) error
 
 func newGC(primary *MultihashPrimary, freeList *freelist.FreeList, interval, timeLimit time.Duration, updateIndex UpdateIndexFunc) *primaryGC {
 	gc := &primaryGC{
@@ -319,25 +322,30 @@ func (gc *primaryGC) reapRecords(fileNum uint32, lowUsePercent int64) (bool, err
 				return false, fmt.Errorf("cannot put new primary record: %w", err)
 			}
 			// Update the index with the new primary location.
-			if err = gc.updateIndex(indexKey, fileOffset); err != nil {
+			offset := absolutePrimaryPos(types.Position(busyAt), fileNum, gc.primary.maxFileSize)
+			blk := types.Block{Size: types.Size(busySize), Offset: types.Position(offset)}
+			if err = gc.updateIndex(indexKey, blk, fileOffset); err != nil {
 				log.Errorw("Cannot update index with new record location", "err", err)
-				// Failed to index the moved record, most likely because the
-				// key was not found in the index. The moved record is
-				// unreachable so it must be removed.
+				// Failed to index the moved record, because the index does not
+				// refer to the old record: the key was removed or overwritten
+				// since, or the record was never indexed. The moved record is
+				// unreachable so it must be removed. The old record is freed
+				// by whoever superseded it.
 				if err = gc.freeList.Put(fileOffset); err != nil {
 					log.Errorw("Cannot put failed index record location into freelist", "err", err)
 				}
-			} else {
-				log.Debugw("Moved record from end of low-use file", "from", fileName, "free", totalFree, "busy", totalBusy)
+				busyAt = prevBusyAt
+				busySize = prevBusySize
+				prevBusyAt = -1
+				continue
 			}
+			log.Debugw("Moved record from end of low-use file", "from", fileName, "free", totalFree, "busy", totalBusy)
 			// Do not truncate file here, because moved record may not be
 			// written yet. Instead put moved record onto freelist and let next
 			// GC cycle process freelist and delete this record. This also
 			// keeps low-use files getting processed each GC cycle.
 
 			// Add outdated data in primary storage to freelist
-			offset := absolutePrimaryPos(types.Position(busyAt), fileNum, gc.primary.maxFileSize)
-			blk := types.Block{Size: types.Size(busySize), Offset: types.Position(offset)}
 			if err = gc.freeList.Put(blk); err != nil {
 				return false, fmt.Errorf("cannot put old record location into freelist: %w", err)
 			}
